@@ -555,8 +555,9 @@ def explore_copy(res, name, via, depth, run=True):
 
 
 # ----------------------------------------------------------- Regions lists ----
-DERIVE = ['slice_all', 'slice_tail', 'slice_step', 'slice_rev', 'copy', 'slice_of_copy']
-LIST_EVENTS = [['append'], ['extend'], ['insert0'], ['insert_mid'], ['pop'], ['pop0'], ['reverse']]
+DERIVE = ['slice_all', 'slice_tail', 'slice_step', 'slice_rev', 'copy', 'slice_of_copy', 'slice_empty', 'slice_beyond']
+# extend_other: extend with the OTHER list object itself (a Regions, not a plain list); extend_regions: with a fresh Regions
+LIST_EVENTS = [['append'], ['extend'], ['insert0'], ['insert_mid'], ['pop'], ['pop0'], ['reverse'], ['extend_other'], ['extend_regions']]
 
 
 def explore_lists(res, derive, depth, run=True):
@@ -574,6 +575,10 @@ def explore_lists(res, derive, depth, run=True):
             d = src[::-1]
         elif derive == 'copy':
             d = src.copy()
+        elif derive == 'slice_empty':
+            d = src[0:0]
+        elif derive == 'slice_beyond':
+            d = src[4:]
         else:
             d = src.copy()[0:3]
         return {'src': src, 'd': d, 'src_list': src.regions, 'ids': [id(x) for x in src.regions]}
@@ -589,6 +594,10 @@ def explore_lists(res, derive, depth, run=True):
                 tgt.append(pool.make('ellipse'))
             elif op == 'extend':
                 tgt.extend([pool.make('point'), pool.make('line')])
+            elif op == 'extend_other':
+                tgt.extend(st['src' if ev[0] == 'd' else 'd'])
+            elif op == 'extend_regions':
+                tgt.extend(Regions([pool.make('point'), pool.make('line')]))
             elif op == 'insert0':
                 tgt.insert(0, pool.make('rectangle'))
             elif op == 'insert_mid':
